@@ -4,6 +4,9 @@ Only the shapes listed here are recognised; anything else raises TranslateError,
 reports as a broken tie (never skipped).  No module of /repo is imported: the source text is parsed.
 
 Types tracked:  'Z' | 'bool' | 'string' | ('enum', N) | ('rec', N) | ('list', T) | ('vec',)  (numpy int vector)
+
+Second half of this file: the AST NORMALISATION pre-pass (`norm_function` and the passes N1-N6), which the generators apply to
+the function bodies they inspect so that behaviour-preserving rewrites of the library reach them in one shape.
 """
 import ast
 import hashlib
@@ -214,6 +217,34 @@ class FnTranslator:
             if aty != bty:
                 fail(n, "if-expression branches differ in type")
             return f"(if {c} then {a} else {b})", aty
+        if isinstance(n, ast.List) and any(isinstance(e, ast.Starred) for e in n.elts):
+            # `[*a, *b, x]` with a, b of a list type denotes a ++ b ++ [x]: a list display with starred items iterates each
+            # starred operand in order, and iterating a list yields its elements in order.  Typed (only list / int-vector
+            # operands), so it cannot be confused with `+` on numbers or arrays; emitted exactly like `a + b + [x]`.
+            segs, run = [], []
+            for e in n.elts:
+                if isinstance(e, ast.Starred):
+                    if run:
+                        segs.append(("[" + "; ".join(p for p, _ in run) + "]", ('list', run[0][1]), [t for _, t in run]))
+                        run = []
+                    t, ty = self.expr(e.value, loc)
+                    if ty == ('vec',):
+                        ty = ('list', 'Z')
+                    if ty[0] != 'list' or ty[1] == '?':
+                        fail(n, f"starred operand of type {ty}")
+                    segs.append((t, ty, [ty[1]]))
+                else:
+                    run.append(self.expr(e, loc))
+            if run:
+                segs.append(("[" + "; ".join(p for p, _ in run) + "]", ('list', run[0][1]), [t for _, t in run]))
+            ty = segs[0][1]
+            for _, sty, etys in segs:
+                if sty != ty or any(t != ty[1] for t in etys):
+                    fail(n, "heterogeneous list")
+            text = segs[0][0]
+            for t, _, _ in segs[1:]:
+                text = f"({text} ++ {t})"
+            return text, ty
         if isinstance(n, ast.List):
             parts = [self.expr(e, loc) for e in n.elts]
             if not parts:
@@ -413,3 +444,606 @@ def dataclass_fields(cls):
         if isinstance(s, ast.AnnAssign) and isinstance(s.target, ast.Name):
             out.append((s.target.id, ast.unparse(s.annotation), s.value))
     return out
+
+
+# =====================================================================================================================
+# AST NORMALISATION  (pre-pass; conservative; every rewrite is semantics-preserving for the code the translator reads)
+# =====================================================================================================================
+# Purpose: strictly behaviour-preserving rewrites of the library (a hoisted local, an inlined temporary, a loop turned into a
+# comprehension, a guard clause turned around, a private helper extracted, an annotation added) must reach the generators in
+# ONE shape, so that they neither raise nor change the generated text.  Every pass below
+#   * works on a deep copy (`norm_function`), never on the parsed tree that other sites pin literally;
+#   * rewrites only when ALL its side conditions are verified syntactically; otherwise it leaves the code alone, and the
+#     generator that meets the unrecognised shape still raises TranslateError (fail-closed is unchanged);
+#   * never looks at what a generator would like to see: the conditions are about Python semantics only.
+# Shared assumptions (the same ones the translators already make when they model attributes as record fields): loading a
+# name, a constant or an attribute chain (`self.a.b`) has no side effect; zero-argument `super()` has no side effect.
+
+_SIMPLE_STMTS = (ast.Return, ast.Expr, ast.Assign, ast.AnnAssign)
+_OPAQUE_EXPRS = (ast.Lambda, ast.ListComp, ast.SetComp, ast.DictComp, ast.GeneratorExp, ast.Await, ast.Yield, ast.YieldFrom,
+                 ast.NamedExpr, ast.JoinedStr, ast.FormattedValue)
+
+
+def is_docstring(s):
+    return isinstance(s, ast.Expr) and isinstance(s.value, ast.Constant) and isinstance(s.value.value, str)
+
+
+def trivially_pure(e):
+    """Name / constant / attribute chain / `super()`: evaluating it has no effect and cannot observe one made in between."""
+    if isinstance(e, (ast.Constant,)):
+        return True
+    if isinstance(e, ast.Name):
+        return isinstance(e.ctx, ast.Load)
+    if isinstance(e, ast.Attribute):
+        return isinstance(e.ctx, ast.Load) and trivially_pure(e.value)
+    if isinstance(e, ast.Call) and isinstance(e.func, ast.Name) and e.func.id == 'super' and not e.args and not e.keywords:
+        return True
+    return False
+
+
+_PURE_BUILTINS = {'min', 'max', 'abs', 'len', 'int', 'float', 'bool', 'round'}
+_PURE_MODULE_FUNCS = {('np', 'exp'), ('numpy', 'exp'), ('math', 'exp'), ('np', 'sqrt'), ('numpy', 'sqrt'), ('math', 'sqrt'),
+                      ('np', 'log'), ('numpy', 'log'), ('math', 'log')}
+
+
+def pure_expr(e):
+    """Deterministic and effect-free: trivially pure leaves combined by operators and a few arithmetic builtins.  Such an
+    expression may be evaluated earlier, later, once or several times without a visible difference."""
+    if trivially_pure(e):
+        return True
+    if isinstance(e, ast.BinOp):
+        return pure_expr(e.left) and pure_expr(e.right)
+    if isinstance(e, ast.UnaryOp):
+        return pure_expr(e.operand)
+    if isinstance(e, ast.BoolOp):
+        return all(pure_expr(v) for v in e.values)
+    if isinstance(e, ast.Compare):
+        return pure_expr(e.left) and all(pure_expr(c) for c in e.comparators)
+    if isinstance(e, ast.IfExp):
+        return pure_expr(e.test) and pure_expr(e.body) and pure_expr(e.orelse)
+    if isinstance(e, (ast.Tuple, ast.List)):
+        return isinstance(e.ctx, ast.Load) and all(pure_expr(x) for x in e.elts)
+    if isinstance(e, ast.Call) and not e.keywords and all(pure_expr(a) for a in e.args):
+        f = e.func
+        if isinstance(f, ast.Name) and f.id in _PURE_BUILTINS:
+            return True
+        if isinstance(f, ast.Attribute) and isinstance(f.value, ast.Name) and (f.value.id, f.attr) in _PURE_MODULE_FUNCS:
+            return True
+    return False
+
+
+def mentions(node_or_list, name):
+    nodes = node_or_list if isinstance(node_or_list, list) else [node_or_list]
+    return any(isinstance(x, ast.Name) and x.id == name for n in nodes for x in ast.walk(n))
+
+
+def _other_binders(fn, name):
+    """does `name` occur in `fn` as anything else than an ast.Name (parameter, import alias, def/class, except-as, global)?"""
+    for x in ast.walk(fn):
+        if isinstance(x, ast.arg) and x.arg == name:
+            return True
+        if isinstance(x, ast.alias) and (x.asname or x.name).split('.')[0] == name:
+            return True
+        if isinstance(x, (ast.FunctionDef, ast.AsyncFunctionDef, ast.ClassDef)) and x is not fn and x.name == name:
+            return True
+        if isinstance(x, ast.ExceptHandler) and x.name == name:
+            return True
+        if isinstance(x, (ast.Global, ast.Nonlocal)) and name in x.names:
+            return True
+    return False
+
+
+def _occurrences(fn, name):
+    return [x for x in ast.walk(fn) if isinstance(x, ast.Name) and x.id == name]
+
+
+def bound_names(fn):
+    """every name the function binds locally: parameters and stored names (anywhere inside, nested scopes included: safe side)"""
+    out = set()
+    for x in ast.walk(fn):
+        if isinstance(x, ast.arg):
+            out.add(x.arg)
+        elif isinstance(x, ast.Name) and isinstance(x.ctx, (ast.Store, ast.Del)):
+            out.add(x.id)
+        elif isinstance(x, ast.alias):
+            out.add((x.asname or x.name).split('.')[0])
+        elif isinstance(x, ast.ExceptHandler) and x.name:
+            out.add(x.name)
+        elif isinstance(x, (ast.FunctionDef, ast.AsyncFunctionDef, ast.ClassDef)) and x is not fn:
+            out.add(x.name)
+    return out
+
+
+def sub_blocks(stmt):
+    """the statement lists directly nested in a compound statement (nested defs / classes are NOT entered)"""
+    out = []
+    if isinstance(stmt, (ast.If, ast.For, ast.AsyncFor, ast.While)):
+        out += [stmt.body, stmt.orelse]
+    elif isinstance(stmt, (ast.With, ast.AsyncWith)):
+        out.append(stmt.body)
+    elif isinstance(stmt, ast.Try):
+        out += [stmt.body, stmt.orelse, stmt.finalbody] + [h.body for h in stmt.handlers]
+    return out
+
+
+def all_blocks(fn):
+    """every statement list of the function's own scope, outermost first"""
+    out, todo = [], [fn.body]
+    while todo:
+        b = todo.pop(0)
+        out.append(b)
+        for s in b:
+            todo += sub_blocks(s)
+    return out
+
+
+# ---------------------------------------------------------------------------------------------------------------------
+# (N1) annotated assignment -> assignment
+# PEP 526: inside a function body the annotation of a local name or of an attribute target is neither evaluated nor
+# stored; `x: T = e` and `self.a: T = e` execute exactly like `x = e` / `self.a = e`.  Class-level and module-level
+# annotated assignments (dataclass fields!) are NOT touched: this pass only runs on function bodies.
+def norm_annotations(fn):
+    for block in all_blocks(fn):
+        for i, s in enumerate(block):
+            if isinstance(s, ast.AnnAssign) and s.value is not None and isinstance(s.target, (ast.Name, ast.Attribute)):
+                block[i] = ast.copy_location(ast.Assign(targets=[s.target], value=s.value, type_comment=None), s)
+    return fn
+
+
+# ---------------------------------------------------------------------------------------------------------------------
+# (N2) negation of a condition, De Morgan
+# `not (A and B)` == `not A or not B`, `not (A or B)` == `not A and not B`: same operands evaluated in the same order with
+# the same short-circuit points, same truth value.  `not (x is None)` == `x is not None` and `not (x in l)` == `x not in l`
+# by the language definition (both pairs are defined as each other's negation).  Other comparisons (`==`, `<`) may be
+# overloaded independently of their opposite, so they are wrapped in `not` rather than flipped.  Only valid where the
+# value is used as a truth value (an `if` test, a comprehension filter): callers use it only there.
+_FLIP = {ast.Is: ast.IsNot, ast.IsNot: ast.Is, ast.In: ast.NotIn, ast.NotIn: ast.In}
+
+
+def negate(e):
+    if isinstance(e, ast.UnaryOp) and isinstance(e.op, ast.Not):
+        return e.operand
+    if isinstance(e, ast.BoolOp):
+        op = ast.Or() if isinstance(e.op, ast.And) else ast.And()
+        return ast.copy_location(ast.BoolOp(op=op, values=[negate(v) for v in e.values]), e)
+    if isinstance(e, ast.Compare) and len(e.ops) == 1 and type(e.ops[0]) in _FLIP:
+        return ast.copy_location(ast.Compare(left=e.left, ops=[_FLIP[type(e.ops[0])]()], comparators=e.comparators), e)
+    return ast.copy_location(ast.UnaryOp(op=ast.Not(), operand=e), e)
+
+
+def always_exits(stmts):
+    """every path through the block ends in `return` or `raise`"""
+    if not stmts:
+        return False
+    s = stmts[-1]
+    if isinstance(s, (ast.Return, ast.Raise)):
+        return True
+    if isinstance(s, ast.If):
+        return always_exits(s.body) and always_exits(s.orelse)
+    return False
+
+
+# (N3) guard clauses
+#     if C: B          (no else; B always returns/raises)            if not C: R
+#     R                (R always returns/raises)               ==    B
+# Both run B when C holds and R otherwise, and neither falls through.  Canonical form: the test is NOT a disjunction and
+# NOT a negation, i.e. `if not-A or not-B: return Y; X` and `if not (A and B): return Y; X` become `if A and B: X; return Y`.
+# A test that is already a conjunction / an atom is left as written (so the shapes present in /repo stay untouched).
+def norm_guards(block):
+    i = 0
+    while i < len(block):
+        s = block[i]
+        if (isinstance(s, ast.If) and not s.orelse and isinstance(s.test, (ast.BoolOp, ast.UnaryOp))
+                and (isinstance(s.test, ast.UnaryOp) and isinstance(s.test.op, ast.Not)
+                     or isinstance(s.test, ast.BoolOp) and isinstance(s.test.op, ast.Or))
+                and always_exits(s.body) and always_exits(block[i + 1:])):
+            rest = block[i + 1:]
+            block[i:] = [ast.copy_location(ast.If(test=negate(s.test), body=rest, orelse=[]), s)] + s.body
+            continue        # look at the same position again (the new test may still be a negation)
+        for b in sub_blocks(s):
+            norm_guards(b)
+        i += 1
+    return block
+
+
+# ---------------------------------------------------------------------------------------------------------------------
+# (N4) a local bound once and used once, in the next statement  ->  substituted
+#     x = E                                  S[E]
+#     S[x]          (S a simple statement)
+# Conditions: `x` occurs in the whole function exactly twice (this store, one load) and is bound in no other way; the load
+# is in the statement that immediately follows, at a position that is evaluated exactly once and unconditionally (not under
+# `and`/`or`/`if-else`/lambda/comprehension/f-string, not behind `*`/`**` arguments); and everything that S evaluates BEFORE
+# reaching that position is trivially pure.  Then E is evaluated in the same state and in the same order relative to every
+# other non-trivial evaluation as before, and nothing else can see `x`.  (E itself may be anything, e.g. a `.copy(...)`
+# call or a list of constructor calls: it is moved past trivially pure loads only.)
+class _Found(Exception):
+    pass
+
+
+def _eval_children(e):
+    """sub-expressions in evaluation order, as (child, strict) -- strict = evaluated exactly once, unconditionally.
+    None = node type whose evaluation order we do not model."""
+    if isinstance(e, ast.Attribute):
+        return [(e.value, True)]
+    if isinstance(e, ast.Call):
+        if any(isinstance(a, ast.Starred) for a in e.args) or any(k.arg is None for k in e.keywords):
+            return None
+        return [(e.func, True)] + [(a, True) for a in e.args] + [(k.value, True) for k in e.keywords]
+    if isinstance(e, ast.BinOp):
+        return [(e.left, True), (e.right, True)]
+    if isinstance(e, ast.UnaryOp):
+        return [(e.operand, True)]
+    if isinstance(e, ast.Compare):
+        return [(e.left, True), (e.comparators[0], True)] + [(c, False) for c in e.comparators[1:]]
+    if isinstance(e, ast.BoolOp):
+        return [(e.values[0], True)] + [(v, False) for v in e.values[1:]]
+    if isinstance(e, ast.IfExp):
+        return [(e.test, True), (e.body, False), (e.orelse, False)]
+    if isinstance(e, ast.Subscript):
+        return [(e.value, True), (e.slice, True)]
+    if isinstance(e, ast.Slice):
+        return [(x, True) for x in (e.lower, e.upper, e.step) if x is not None]
+    if isinstance(e, (ast.List, ast.Tuple, ast.Set)):
+        if any(isinstance(x, ast.Starred) for x in e.elts):
+            return None
+        return [(x, True) for x in e.elts]
+    if isinstance(e, ast.Dict):
+        if any(k is None for k in e.keys):
+            return None
+        return [x for k, v in zip(e.keys, e.values) for x in ((k, True), (v, True))]
+    if isinstance(e, (ast.Name, ast.Constant)):
+        return []
+    return None
+
+
+def _reachable_first(e, name):
+    """True iff the (single) load of `name` inside `e` is reached strictly and only trivially pure expressions are
+    evaluated before it."""
+    if isinstance(e, ast.Name) and e.id == name:
+        return isinstance(e.ctx, ast.Load)
+    ch = _eval_children(e)
+    if ch is None:
+        return False
+    for c, strict in ch:
+        if mentions(c, name):
+            return strict and _reachable_first(c, name)
+        if not trivially_pure(c):
+            return False
+    return False
+
+
+class _ReplaceName(ast.NodeTransformer):
+    def __init__(self, name, value):
+        self.name, self.value, self.count = name, value, 0
+
+    def visit_Name(self, n):
+        if n.id == self.name and isinstance(n.ctx, ast.Load):
+            self.count += 1
+            return self.value
+        return n
+
+
+def _local_def(s, allow_ann):
+    """`x = E` / `x: T = E` -> (x, E) else None"""
+    if isinstance(s, ast.Assign) and len(s.targets) == 1 and isinstance(s.targets[0], ast.Name):
+        return s.targets[0].id, s.value
+    if allow_ann and isinstance(s, ast.AnnAssign) and isinstance(s.target, ast.Name) and s.value is not None:
+        return s.target.id, s.value
+    return None
+
+
+def subst_single_use(fn, block, i, allow_ann=True):
+    """Try (N4) for the local defined by block[i]; on success block[i] is removed and True is returned."""
+    d = _local_def(block[i], allow_ann)
+    if d is None or i + 1 >= len(block):
+        return False
+    x, value = d
+    nxt = block[i + 1]
+    if not isinstance(nxt, _SIMPLE_STMTS) or getattr(nxt, 'value', None) is None:
+        return False
+    occ = _occurrences(fn, x)
+    if len(occ) != 2 or sum(isinstance(o.ctx, ast.Load) for o in occ) != 1 or _other_binders(fn, x):
+        return False
+    if mentions(value, x) or not _reachable_first(nxt.value, x):
+        return False
+    r = _ReplaceName(x, value)
+    nxt.value = r.visit(nxt.value)
+    if r.count != 1:
+        raise TranslateError(f"normalisation: internal error substituting {x}")
+    del block[i]
+    return True
+
+
+def norm_single_use(fn, allow_ann=True):
+    """(N4) to a fixpoint, bottom-up inside each block (so that `a = E1; b = E2; return f(a, b)` is resolved b first)."""
+    changed = True
+    while changed:
+        changed = False
+        for block in all_blocks(fn):
+            for i in range(len(block) - 2, -1, -1):
+                if i + 1 < len(block) and subst_single_use(fn, block, i, allow_ann):
+                    changed = True
+    return fn
+
+
+# ---------------------------------------------------------------------------------------------------------------------
+# (N5) accumulate loop -> list comprehension
+#     r = []                                   (statements that do not mention r)
+#     (statements that do not mention r)       r = [e for x in it if not c]
+#     for x in it:
+#         [if c: continue]
+#         r.append(e)
+# The comprehension evaluates `it` once, then for each element c and e in the same order and appends in the same order.
+# Differences between the two forms, each excluded by a check: the loop variable outlives a loop but not a comprehension
+# (x must not occur outside the loop); r is visible while the loop runs (it, c, e must not mention r); after an exception a
+# partial r is visible to a handler (no handler / finally of the function may mention r); creating the empty list later is
+# invisible because nothing in between mentions r.  If the statement after the loop uses r exactly once, (N4) applies.
+def _append_of(s, r):
+    if (isinstance(s, ast.Expr) and isinstance(s.value, ast.Call) and isinstance(s.value.func, ast.Attribute)
+            and s.value.func.attr == 'append' and isinstance(s.value.func.value, ast.Name) and s.value.func.value.id == r
+            and len(s.value.args) == 1 and not s.value.keywords and not isinstance(s.value.args[0], ast.Starred)):
+        return s.value.args[0]
+    return None
+
+
+def _target_names(t):
+    if isinstance(t, ast.Name):
+        return [t.id]
+    if isinstance(t, (ast.Tuple, ast.List)):
+        out = []
+        for e in t.elts:
+            sub = _target_names(e)
+            if sub is None:
+                return None
+            out += sub
+        return out
+    return None
+
+
+def _accumulate_at(fn, block, i):
+    s = block[i]
+    tgt = s.targets[0] if isinstance(s, ast.Assign) and len(s.targets) == 1 else (s.target if isinstance(s, ast.AnnAssign) else None)
+    if not (isinstance(tgt, ast.Name) and isinstance(s.value, ast.List) and not s.value.elts):
+        return False
+    r = tgt.id
+    j = i + 1
+    while j < len(block) and not mentions(block[j], r):
+        j += 1
+    if j >= len(block) or not isinstance(block[j], ast.For):
+        return False
+    loop = block[j]
+    body = [b for b in loop.body if not is_docstring(b)]
+    names = _target_names(loop.target)
+    if loop.orelse or names is None or len(body) not in (1, 2):
+        return False
+    cond = None
+    if len(body) == 2:
+        g = body[0]
+        if not (isinstance(g, ast.If) and not g.orelse and len(g.body) == 1 and isinstance(g.body[0], ast.Continue)):
+            return False
+        cond = g.test
+    elt = _append_of(body[-1], r)
+    if elt is None:
+        return False
+    parts = [loop.iter, elt] + ([cond] if cond is not None else [])
+    if any(mentions(p, r) for p in parts):
+        return False
+    if any(isinstance(x, _OPAQUE_EXPRS) for p in [elt] + ([cond] if cond is not None else []) for x in ast.walk(p)):
+        return False
+    for n in names:       # the loop variable must be private to the loop
+        inside = sum(1 for x in ast.walk(loop) if isinstance(x, ast.Name) and x.id == n)
+        if n == r or len(_occurrences(fn, n)) != inside or _other_binders(fn, n):
+            return False
+    if _other_binders(fn, r):
+        return False
+    for t in ast.walk(fn):
+        if isinstance(t, ast.Try) and (mentions(t.finalbody, r) or any(mentions(h, r) for h in t.handlers)):
+            return False
+    comp = ast.ListComp(elt=elt, generators=[ast.comprehension(target=loop.target, iter=loop.iter,
+                                                                ifs=[negate(cond)] if cond is not None else [], is_async=0)])
+    new = ast.Assign(targets=[ast.Name(id=r, ctx=ast.Store())], value=comp, type_comment=None)
+    ast.copy_location(new, loop)
+    ast.copy_location(new.targets[0], loop)
+    ast.copy_location(comp, loop)
+    block[j] = new
+    del block[i]
+    subst_single_use(fn, block, j - 1, allow_ann=False)
+    return True
+
+
+def norm_accumulate(fn):
+    changed = True
+    while changed:
+        changed = False
+        for block in all_blocks(fn):
+            for i in range(len(block)):
+                if isinstance(block[i], (ast.Assign, ast.AnnAssign)) and _accumulate_at(fn, block, i):
+                    changed = True
+                    break
+            if changed:
+                break
+    return fn
+
+
+# ---------------------------------------------------------------------------------------------------------------------
+# (N6) calls of private helpers -> inlined
+# A call `_h(a1, ..)` of a module-level function, or `self._m(a1, ..)` of a method of the same class, whose name starts with
+# one underscore and whose body is `return <expr>` (expression form) or straight-line simple statements ending in the only
+# `return <expr>` (statement form, accepted only where the call is the whole right-hand side / returned value / expression
+# of a simple statement), is replaced by the body with the parameters replaced by the arguments.
+# Conditions: the helper is defined exactly once, undecorated, with plain positional parameters that the call binds exactly
+# once each; it is not recursive; for methods no other class of the module defines the same name (`self._m` then denotes
+# this definition for the instances the generators model; a subclass outside the module overriding a private method is
+# outside the closed world the generators pin); the arguments are pure expressions (expression form: they may then be
+# evaluated where and as often as the parameter occurs) resp. names or constants (statement form: a name denotes the same
+# object at every later point because the helper's own locals are required to be disjoint from every name of the caller, so
+# nothing rebinds it); free names of the helper (globals, builtins) are not bound locally in the caller, and the helper's
+# expression contains no binder (lambda / comprehension) that could capture an argument.
+class _SubstParams(ast.NodeTransformer):
+    def __init__(self, table):
+        self.table = table
+
+    def visit_Name(self, n):
+        if n.id in self.table and isinstance(n.ctx, ast.Load):
+            import copy
+            return copy.deepcopy(self.table[n.id])
+        return n
+
+
+def _helper_shape(h, method):
+    """-> (params, statements, return-expression) or None"""
+    a = h.args
+    if h.decorator_list or a.vararg or a.kwarg or a.kwonlyargs or a.defaults or a.kw_defaults or a.posonlyargs:
+        return None
+    params = [x.arg for x in a.args]
+    if method:
+        if not params or params[0] != 'self':
+            return None
+        params = params[1:]
+    body = [s for s in h.body if not is_docstring(s)]
+    if not body or not isinstance(body[-1], ast.Return) or body[-1].value is None:
+        return None
+    for x in ast.walk(h):
+        if isinstance(x, (ast.Return,)) and x is not body[-1]:
+            return None
+        if isinstance(x, (ast.Yield, ast.YieldFrom, ast.Await, ast.Global, ast.Nonlocal, ast.FunctionDef, ast.AsyncFunctionDef,
+                          ast.ClassDef, ast.Lambda)) and x is not h:
+            return None
+    for s in body[:-1]:
+        if not isinstance(s, (ast.Assign, ast.AnnAssign, ast.Expr)):
+            return None
+    stored = {x.id for x in ast.walk(h) if isinstance(x, ast.Name) and isinstance(x.ctx, (ast.Store, ast.Del))}
+    if stored & (set(params) | {'self'}):
+        return None
+    return params, body[:-1], body[-1].value
+
+
+def _bind_args(call, params):
+    if any(isinstance(x, ast.Starred) for x in call.args) or any(k.arg is None for k in call.keywords):
+        return None
+    if len(call.args) > len(params):
+        return None
+    table = dict(zip(params, call.args))
+    for k in call.keywords:
+        if k.arg not in params or k.arg in table:
+            return None
+        table[k.arg] = k.value
+    return table if set(table) == set(params) else None
+
+
+def _helper_of(call, module, cls):
+    """the definition a call denotes, as (FunctionDef, is_method), or None"""
+    f = call.func
+    if isinstance(f, ast.Name) and f.id.startswith('_') and not f.id.startswith('__'):
+        defs = [n for n in module.body if isinstance(n, ast.FunctionDef) and n.name == f.id]
+        rebound = [n for n in ast.walk(module) if isinstance(n, ast.Name) and n.id == f.id and isinstance(n.ctx, (ast.Store, ast.Del))]
+        if len(defs) == 1 and not rebound:
+            return defs[0], False
+    if (cls is not None and isinstance(f, ast.Attribute) and isinstance(f.value, ast.Name) and f.value.id == 'self'
+            and f.attr.startswith('_') and not f.attr.startswith('__')):
+        defs = [n for n in cls.body if isinstance(n, ast.FunctionDef) and n.name == f.attr]
+        elsewhere = [n for c in module.body if isinstance(c, ast.ClassDef) and c is not cls
+                     for n in c.body if isinstance(n, ast.FunctionDef) and n.name == f.attr]
+        assigned = [n for n in ast.walk(module) if isinstance(n, ast.Attribute) and n.attr == f.attr and isinstance(n.ctx, (ast.Store, ast.Del))]
+        if len(defs) == 1 and not elsewhere and not assigned:
+            return defs[0], True
+    return None
+
+
+def _inline_once(fn, module, cls):
+    import copy
+    caller_bound = bound_names(fn)
+    caller_names = caller_bound | {x.id for x in ast.walk(fn) if isinstance(x, ast.Name)}
+
+    def plan(call, statement_form):
+        hd = _helper_of(call, module, cls)
+        if hd is None or hd[0] is fn:
+            return None
+        h, method = hd
+        shape = _helper_shape(h, method)
+        if shape is None:
+            return None
+        params, stmts, ret = shape
+        if stmts and not statement_form:
+            return None
+        if any(isinstance(x, ast.Call) and _helper_of(x, module, cls) is not None and _helper_of(x, module, cls)[0] is h
+               for x in ast.walk(h)):
+            return None                                         # recursive
+        table = _bind_args(call, params)
+        if table is None:
+            return None
+        helper_locals = bound_names(h) - set(params) - {'self'}
+        helper_free = {x.id for x in ast.walk(h) if isinstance(x, ast.Name)} - set(params) - {'self'} - helper_locals
+        if helper_free & caller_bound or helper_locals & caller_names:
+            return None
+        if stmts:
+            if not all(isinstance(a, (ast.Name, ast.Constant)) for a in table.values()):
+                return None
+        else:
+            if not all(pure_expr(a) for a in table.values()) or any(isinstance(x, _OPAQUE_EXPRS) for x in ast.walk(ret)):
+                return None
+        sub = _SubstParams(table)
+        return [sub.visit(copy.deepcopy(s)) for s in stmts], sub.visit(copy.deepcopy(ret))
+
+    for block in all_blocks(fn):
+        for i, s in enumerate(block):
+            # statement form: the call is the whole value of a simple statement
+            if isinstance(s, _SIMPLE_STMTS) and isinstance(getattr(s, 'value', None), ast.Call):
+                p = plan(s.value, True)
+                if p is not None:
+                    s.value = p[1]
+                    block[i:i] = p[0]
+                    return True
+    # expression form, anywhere
+    class T(ast.NodeTransformer):
+        done = False
+
+        def visit_Call(self, n):
+            self.generic_visit(n)
+            if not self.done:
+                p = plan(n, False)
+                if p is not None:
+                    self.done = True
+                    return p[1]
+            return n
+
+        def visit_FunctionDef(self, n):
+            return self.generic_visit(n) if n is fn else n
+
+        def visit_Lambda(self, n):
+            return n
+    t = T()
+    t.visit(fn)
+    return t.done
+
+
+def norm_inline_helpers(fn, module, cls=None, limit=12):
+    n = 0
+    while n < limit and _inline_once(fn, module, cls):
+        n += 1
+    return fn
+
+
+# ---------------------------------------------------------------------------------------------------------------------
+def norm_function(fn, module=None, cls=None, annotations=True, guards=True, accumulate=True, single_use=True, helpers=True):
+    """Deep copy of `fn` in normal form.  Each generator chooses the passes that are neutral for what it emits (e.g. the
+    kernel translator keeps annotations, which it reads as types, and keeps single-use locals, which it emits as `let`)."""
+    import copy
+    try:
+        fn = copy.deepcopy(fn)
+        if helpers and module is not None:
+            norm_inline_helpers(fn, module, cls)
+        if accumulate:
+            norm_accumulate(fn)
+        if annotations:
+            norm_annotations(fn)
+        if single_use:
+            norm_single_use(fn)
+        if guards:
+            norm_guards(fn.body)
+        ast.fix_missing_locations(fn)
+        return fn
+    except TranslateError:
+        raise
+    except Exception as e:      # fail closed: a defect of the pre-pass is a broken tie, never a crash of the shared run
+        raise TranslateError(f"normalisation of {getattr(fn, 'name', '?')}: {type(e).__name__}: {e}")
